@@ -62,3 +62,24 @@ Theorem C20_header_and_source_are_block_concatenations :
     snd (format_code S blocks) = List.concat (map snd (List.concat blocks)).
 Proof. exact format_code_concat. Qed.
 Print Assumptions C20_header_and_source_are_block_concatenations.
+
+(* ---- namespace / file stem: main.sanitise_filename, regenerated as OptGen.sanitise_steps ---- *)
+From Coq Require Import NArith.
+From FFCX Require Import Sanit.
+
+(* whatever the file is called, the prefix of every alias and the output stem consist of
+   characters a C identifier may contain *)
+Theorem C20_namespace_is_made_of_identifier_characters :
+  forall s : list N, Forall (fun c => ident_char c = true) (run_steps sanitise_steps s).
+Proof. apply sanitise_identifier. vm_compute. reflexivity. Qed.
+Print Assumptions C20_namespace_is_made_of_identifier_characters.
+
+(* and a stem that already is one is kept as it is *)
+Theorem C20_clean_stem_is_kept :
+  forall s : list N, Forall (fun c => ident_char c = true) s -> run_steps sanitise_steps s = s.
+Proof. apply sanitise_fixes_identifiers. vm_compute. reflexivity. Qed.
+Print Assumptions C20_clean_stem_is_kept.
+
+Example C20_sanitise_example :
+  run_steps sanitise_steps [80; 111; 105; 45; 50; 32; 32; 100; 94; 91]%N = [80; 111; 105; 95; 50; 95; 100; 95]%N.
+Proof. vm_compute. reflexivity. Qed.
